@@ -6,7 +6,7 @@ CFG = dict(
               "ply_unclaimed_scalar_reads_own_field", "ply_header_line_lf_crlf", "fan_quad", "ply_reader_quad_fan",
               "ply_reader_triangle", "ply_mixed_type_group_not_claimed",
               "ply_ascii_int_through_float32", "ply_ascii_uchar_scalar_not_normalised"],
-    streams=[dict(name="c08", n=dict(quick=400, thorough=15000))],
+    streams=[dict(name="c08", n=dict(quick=400, thorough=5000))],
     trusted=T_PLY + ["the independent Go reference encoder in c08.go produces the bytes fed to ply.ReadMesh; c08.encode checks on every case that the Lean refEncode yields the same bytes"],
     residue=["ply_reads_spec_full (readMesh (refEncode f) = meaning f for every SpecFile) is a def … : Prop, NOT a theorem; on every generated SpecFile the oracle c08.holds.meaning checks that ply.ReadMesh's result equals `meaning f` and c08.read that the model reader agrees with ply.ReadMesh",
              "proved for all inputs: location arithmetic of scalar readers for any property order (binary offsets = prefix sums of sizes, ASCII column = header index), decoding at that location, LF/CRLF line reading, quad fan; the 2-/3-/4-vector claim scan, claimed/unclaimed partition, header keyword parsing and list readers are modelled and corresponded, not proved",
